@@ -1,6 +1,8 @@
 import Ovsdb.Generated.Facts
 import Ovsdb.Model.Naming
 import Ovsdb.Model.Server
+import Ovsdb.Model.Updates
+import Ovsdb.Model.Cond
 /-
   Theorems over the facts extracted from /repo's source on this run
   (Ovsdb/Generated/Facts.lean is rewritten by /verif/extract before every
@@ -84,5 +86,58 @@ theorem client_clones_shallow_rows :
 example : acyclic [(2, 3), (3, 2)] = false := by decide
 example : acyclic [(0, 1), (1, 2), (2, 0)] = false := by decide
 example : acyclic [(3, 2), (2, 0), (0, 1)] = true := by decide
+
+
+/-! ### the validation tables of ovsdb/bindings.go are the model's (C03, C08) -/
+
+def goMutator : Mutator → String
+  | .add => "MutateOperationAdd" | .sub => "MutateOperationSubtract" | .mul => "MutateOperationMultiply"
+  | .div => "MutateOperationDivide" | .mod => "MutateOperationModulo"
+  | .insert => "MutateOperationInsert" | .delete => "MutateOperationDelete"
+
+def goAType : AType → String
+  | .integer => "TypeInteger" | .real => "TypeReal" | .boolean => "TypeBoolean" | .string => "TypeString" | .uuid => "TypeUUID"
+
+def goCondFn : CondFn → String
+  | .lt => "ConditionLessThan" | .le => "ConditionLessThanOrEqual" | .eq => "ConditionEqual" | .ne => "ConditionNotEqual"
+  | .gt => "ConditionGreaterThan" | .ge => "ConditionGreaterThanOrEqual" | .includes => "ConditionIncludes" | .excludes => "ConditionExcludes"
+
+/-- does the extracted switch table accept `f` for the case labelled `k`? -/
+def tableAccepts (tb : List (List String × List String)) (k f : String) : Bool :=
+  match tb.find? (fun r => r.1.contains k) with
+  | some r => r.2.contains "*" || r.2.contains f
+  | none => false
+
+def sampleAtom : AType → Atom
+  | .integer => .int 1 | .real => .real 1 | .boolean => .bool true | .string => .str "a" | .uuid => .uuid "u"
+
+def allATypes : List AType := [.integer, .real, .boolean, .string, .uuid]
+def allMutators : List Mutator := [.add, .sub, .mul, .div, .mod, .insert, .delete]
+def allCondFns : List CondFn := [.lt, .le, .eq, .ne, .gt, .ge, .includes, .excludes]
+
+/-- the mutators `validateMutationAtomic` accepts for a column of an atomic type are
+    the ones the model's `validateMutation` accepts (operand of the right type, not zero) -/
+theorem mutation_table_is_the_models :
+    ∀ t ∈ allATypes, ∀ m ∈ allMutators,
+      (validateMutation { kind := .atom, key := t } m (.atom (sampleAtom t))).toBool =
+        tableAccepts mutationAtomicTable (goAType t) (goMutator m) := by decide
+
+/-- ... and likewise for the element type of a set column (arithmetic on a set is checked as on its elements) -/
+theorem mutation_table_is_the_models_set :
+    ∀ t ∈ allATypes, ∀ m ∈ allMutators, isArith m = true →
+      (validateMutation { kind := .set, key := t } m (.atom (sampleAtom t))).toBool =
+        tableAccepts mutationAtomicTable (goAType t) (goMutator m) := by decide
+
+/-- the condition functions `ValidateCondition` accepts for a column are the ones the model's `evalCond`
+    evaluates: all of them on integers and reals, `==`, `!=`, `includes`, `excludes` on everything else
+    (other atoms, optional values, sets, maps) -/
+theorem condition_table_is_the_models :
+    (∀ t ∈ allATypes, ∀ f ∈ allCondFns,
+      (evalCond f (.atom (sampleAtom t)) (.atom (sampleAtom t))).toBool = tableAccepts conditionTable (goAType t) (goCondFn f)) ∧
+    (∀ f ∈ allCondFns,
+      (evalCond f (.set [.int 1]) (.set [.int 1])).toBool = tableAccepts conditionTable "TypeSet" (goCondFn f) ∧
+      (evalCond f (.opt (some (.int 1))) (.opt (some (.int 1)))).toBool = tableAccepts conditionTable "TypeSet" (goCondFn f) ∧
+      (evalCond f (.map [(.int 1, .int 1)]) (.map [(.int 1, .int 1)])).toBool = tableAccepts conditionTable "TypeMap" (goCondFn f)) := by
+  decide
 
 end Ovsdb.GeneratedThm
